@@ -18,11 +18,22 @@ Z3_OLD = '/usr/bin/z3'
 _POOL = None
 
 
+def _worker_init():
+    # a solver worker must never take the machine down: cap its address space (z3 then reports out-of-memory, which is an
+    # inconclusive result, never a verdict)
+    try:
+        import resource
+        cap = int(os.environ.get('PYVC_WORKER_MEM_GB', '6')) * (1 << 30)
+        resource.setrlimit(resource.RLIMIT_AS, (cap, cap))
+    except Exception:
+        pass
+
+
 def pool():
     global _POOL
     if _POOL is None:
         n = int(os.environ.get('PYVC_JOBS', '0')) or min(16, os.cpu_count() or 4)
-        _POOL = cf.ProcessPoolExecutor(max_workers=n)
+        _POOL = cf.ProcessPoolExecutor(max_workers=n, initializer=_worker_init)
     return _POOL
 
 
@@ -71,12 +82,23 @@ def run_z3_api(text, timeout_ms, want_model=False, fresh_ctx=False):
     try:
         # proof obligations get a context of their own: nothing declared by an earlier query of this worker
         # process (sorts, functions with the same name) can leak into them
-        s = z3.Solver(ctx=z3.Context()) if fresh_ctx else z3.Solver()
+        ctx = z3.Context() if fresh_ctx else z3.main_ctx()
+        s = z3.Solver(ctx=ctx)
         s.set('timeout', int(timeout_ms))
         s.from_string(text)
-        r = s.check()
+        # z3's own timeout is not honoured by every pre-processing step: interrupt the context from a timer as well
+        import threading
+        timer = threading.Timer(timeout_ms / 1000.0 + 5.0, ctx.interrupt)
+        timer.daemon = True
+        timer.start()
+        try:
+            r = s.check()
+        finally:
+            timer.cancel()
     except z3.Z3Exception as ex:
         return 'error', {'error': str(ex)[:500]}, time.time() - t0
+    except MemoryError:
+        return 'error', {'error': 'out of memory (worker address-space cap)'}, time.time() - t0
     status = str(r)
     info = {}
     if status == 'sat' and want_model:
